@@ -127,9 +127,11 @@ class Gen:
         if k < 0.40:
             return ["tok", r.choice(TOKS)], "token"
         if k < 0.55:
-            return ["named", r.choice(NAMED_REG)], "class+"
+            n = r.choice(NAMED_REG)
+            return (["named", n, True] if n == "AnyWordChar" and r.random() < 0.4 else ["named", n]), "class+"
         if k < 0.62:
-            return ["named", r.choice(NAMED_NEG)], "class-"
+            n = r.choice(NAMED_NEG)
+            return (["named", n, True] if n == "AnyButWordChar" and r.random() < 0.4 else ["named", n]), "class-"
         if k < 0.74:
             return ["AnyFrom"] + [r.choice(self.pal) for _ in range(r.randint(1, 4))], "class+"
         if k < 0.80:
@@ -321,6 +323,10 @@ class Gen:
         if r.random() < 0.06:
             d = self.operand(("class+",) if neg else ("class-",))        # mixed -> documented exception
         sym = "|" if g < 0.6 else "-"
+        if r.random() < 0.12:
+            # the word class with / without is_global against the same (usually shared) operand: the two differ only in the
+            # flag, not in their class text, so anything keyed by the text mixes them up
+            d = ["named", "AnyButWordChar" if neg else "AnyWordChar", r.random() < 0.5]
         if r.random() < 0.15:
             c, d = d, c
         return ["op", sym, c, d], ("class-" if neg else "class+")
